@@ -101,6 +101,10 @@ type Sim struct {
 	// thread): it sleeps until the next timer or SkipMax.
 	TimeSkip int
 	SkipMax  time.Duration
+	// SkipBudget bounds the total time skipped in one run (0 = unbounded), so
+	// that stalls do not add up past the deadlines of the code under test.
+	SkipBudget time.Duration
+	skipped    time.Duration
 
 	strat strategy
 
@@ -449,6 +453,10 @@ func (s *Sim) Run(until func() bool, maxV time.Duration) Stop {
 			if d > s.SkipMax {
 				d = s.SkipMax
 			}
+			if s.SkipBudget > 0 && d > s.SkipBudget-s.skipped {
+				d = s.SkipBudget - s.skipped
+			}
+			s.skipped += d
 			if d > 0 {
 				s.mu.Lock()
 				s.logLocked("skip", d.String())
